@@ -180,6 +180,317 @@ def real_connect_cases(_):
     return results
 
 
+# ---- SEVERAL connections in one process: "each address is tried before giving up" on every one of them ---------
+
+RC_FAMS = {'v4': 2, 'v6': 10}
+
+
+def gen_reconnect_case(rng):
+    """k = 2..4 connections to the SAME host in one process - the same WebSocket object connect()ed again, lomond.persist, or a new
+       WebSocket object per connection.  Every connection has its own getaddrinfo result: 0..4 addresses of AF_INET6 / AF_INET in any
+       order, an outcome per address (accepts / refuses), and a set of families for which socket() itself raises (EAFNOSUPPORT); the
+       result changes from one connection to the next (often: the address that accepted before now refuses and another accepts)."""
+    mode = rng.choice(['connect', 'connect', 'persist', 'newobj'])
+    k = rng.choice([2, 2, 3, 3, 4])
+    conns = []
+    prev = None
+    for _ in range(k):
+        r = rng.random()
+        if r < 0.06:
+            conns.append(dict(addrs=None, nosock=[])); continue              # the name does not resolve this time
+        if prev is not None and prev['addrs'] and r < 0.5:
+            # same addresses as last time, outcomes changed: every address of the family that served last time refuses, others accept
+            ok_fams = set(f for f, o in prev['addrs'] if o == 'ok' and f not in prev['nosock'])
+            first_ok = next((f for f, o in prev['addrs'] if o == 'ok' and f not in prev['nosock']), None)
+            addrs = [[f, ('cfail' if f == first_ok else rng.choice(['ok', 'ok', 'cfail'])) if ok_fams else rng.choice(['ok', 'cfail'])] for f, o in prev['addrs']]
+            if rng.random() < 0.3:
+                rng.shuffle(addrs)
+            nosock = []
+        else:
+            n = rng.choice([1, 2, 2, 2, 3, 3, 4])
+            shape = rng.random()
+            fams = [rng.choice(['v4', 'v6']) for _ in range(n)] if shape < 0.6 else sorted((['v6', 'v4'] * n)[:n], reverse=shape < 0.9)
+            addrs = [[f, rng.choice(['ok', 'cfail', 'cfail'])] for f in fams]
+            if rng.random() < 0.5 and not any(o == 'ok' for _, o in addrs):
+                addrs[rng.randrange(n)][1] = 'ok'
+            nosock = [rng.choice(['v4', 'v6'])] if rng.random() < 0.12 else []
+        c = dict(addrs=addrs, nosock=nosock)
+        conns.append(c)
+        prev = c
+    return dict(mode=mode, conns=conns, host=rng.choice(['dual.example.test', 'example.com', 'LocalHost']), port=rng.choice([80, 8080]))
+
+
+def reconnect_systematic():
+    """every pair of connections over two addresses (families x outcomes): (4 family orders x 4 outcomes)^2 = 256 sequences, same object"""
+    import itertools
+    out = []
+    one = [[[f0, o0], [f1, o1]] for f0, f1 in (('v6', 'v4'), ('v4', 'v6'), ('v4', 'v4'), ('v6', 'v6')) for o0 in ('ok', 'cfail') for o1 in ('ok', 'cfail')]
+    for a, b in itertools.product(one, repeat=2):
+        out.append(dict(mode='connect', conns=[dict(addrs=a, nosock=[]), dict(addrs=b, nosock=[])], host='dual.example.test', port=8080))
+    return out
+
+
+def run_reconnect(case):
+    """the real WebSocket.connect() / lomond.persist over the real session loop, `_connect`, `_connect_sock`; simulated: the socket
+       module seen by lomond.session (getaddrinfo, socket objects) and the selector (the peer closes the stream right after the TCP
+       connect, so every connection that comes up ends at once with Disconnected).  Returns one record per connection:
+       dict(events=[names], graceful=, res='sock<i>'|'fail'|'?', log=[socket<i>/connect<i>/close<i>], open=[indices of sockets never closed], escaped=)"""
+    import socket as real_socket
+    import lomond.session as S
+    import lomond.persist as P
+    from lomond.websocket import WebSocket
+    conns = case['conns']
+    cur = dict(i=0, spec=conns[0], log=[], socks=[], pending={})
+    recs = []
+
+    def sa_of(i, fam, port):
+        return ('2001:db8::%d' % (i + 1), port, 0, 0) if fam == 'v6' else ('192.0.2.%d' % (i + 1), port)
+
+    class FakeSock(object):
+        def __init__(self, fam, entry):
+            self.fam, self.entry, self.idx, self.closed, self.up = fam, entry, None, 0, False
+        def setsockopt(self, *a): pass
+        def settimeout(self, t): pass
+        def fileno(self): return 999
+        def connect(self, sa):
+            addrs = cur['spec']['addrs']
+            idx = next((i for i, (f, o) in enumerate(addrs) if sa_of(i, f, sa[1]) == tuple(sa)), None)
+            self.idx = idx
+            if self.entry[1] is None:
+                self.entry[1] = idx
+            cur['log'].append(['connect', idx])
+            if idx is None or addrs[idx][1] != 'ok' or addrs[idx][0] != self.fam:
+                raise real_socket.error(111, 'simulated: connection refused')
+            self.up = True
+        def sendall(self, data): pass
+        def recv_into(self, buf, count=0): return 0
+        def recv(self, n): return b''
+        def pending(self): return 0
+        def shutdown(self, how): pass
+        def close(self):
+            self.closed += 1
+            if not self.up and self.closed == 1:
+                cur['log'].append(['close', self.idx if self.idx is not None else self.entry[1]])
+
+    class Mod(object):
+        error = real_socket.error
+        timeout = real_socket.timeout
+        def __getattr__(self, name):
+            return getattr(real_socket, name)
+        @staticmethod
+        def getaddrinfo(host, port, *a, **kw):
+            addrs = cur['spec']['addrs']
+            if addrs is None:
+                raise real_socket.gaierror(-2, 'Name or service not known')
+            return [(RC_FAMS[f], real_socket.SOCK_STREAM, 6, '', sa_of(i, f, port)) for i, (f, o) in enumerate(addrs)]
+        @staticmethod
+        def socket(af=2, typ=1, proto=0, *a):
+            fam = 'v6' if af == RC_FAMS['v6'] else 'v4'
+            entry = ['socket', None]
+            cur['log'].append(entry)
+            if fam in cur['spec']['nosock']:
+                # attributed to the first address of that family that has not been tried yet
+                seen = set(e[1] for e in cur['log'] if e[0] == 'socket' and e[1] is not None)
+                entry[1] = next((i for i, (f, o) in enumerate(cur['spec']['addrs'] or []) if f == fam and i not in seen), None)
+                raise real_socket.error(97, 'simulated: address family not supported by protocol')
+            sk = FakeSock(fam, entry)
+            cur['socks'].append(sk)
+            return sk
+
+    class FakeSelector(object):
+        def __init__(self, sock): pass
+        def wait(self, max_bytes, timeout): return True, max_bytes
+        def wait_readable(self, timeout=None): return True
+        def close(self): pass
+
+    class Sess(S.WebsocketSession):
+        _selector_cls = FakeSelector
+
+    class WS(WebSocket):
+        def connect(self, **kw):
+            kw.setdefault('session_class', Sess)
+            return WebSocket.connect(self, **kw)
+
+    class ExitEvent(object):
+        def wait(self, t):
+            return bool(cur.get('last'))          # set when the BackOff after the last planned connection has been delivered
+
+    def begin(i):
+        cur.update(i=i, spec=conns[i], log=[], socks=[])
+        recs.append(dict(events=[], graceful=None, escaped=None))
+
+    def finish():
+        r = recs[-1]
+        r['log'] = ['%s%s' % (k, '?' if i is None else i) for k, i in cur['log']]
+        up = [sk for sk in cur['socks'] if sk.up]
+        r['res'] = 'sock%s' % up[0].idx if len(up) == 1 else ('fail' if not up else 'several:%s' % [sk.idx for sk in up])
+        r['open'] = sorted('?' if sk.idx is None else sk.idx for sk in cur['socks'] if not sk.closed)
+
+    def take(ev):
+        r = recs[-1]
+        r['events'].append(ev.name)
+        if ev.name == 'disconnected':
+            r['graceful'] = bool(ev.graceful)
+        if len(r['events']) > 60:
+            r['escaped'] = 'HANG'
+            return True
+        return False
+
+    url = 'ws://%s:%d/' % (case['host'], case['port'])
+    saved = S.socket
+    S.socket = Mod()
+    try:
+        ws = WS(url, proxies={})
+        if case['mode'] == 'persist':
+            begin(0)
+            try:
+                for ev in P.persist(ws, poll=5, min_wait=1, max_wait=2, ping_rate=0, exit_event=ExitEvent()):
+                    if ev.name == 'back_off':
+                        finish()
+                        if cur['i'] + 1 < len(conns):
+                            begin(cur['i'] + 1)
+                        else:
+                            cur['last'] = True
+                        continue
+                    if take(ev):
+                        break
+            except Exception as e:  # noqa -- an exception escaped the event iterator
+                recs[-1]['escaped'] = type(e).__name__
+                finish()
+        else:
+            for i in range(len(conns)):
+                if case['mode'] == 'newobj' and i:
+                    ws = WS(url, proxies={})
+                begin(i)
+                try:
+                    for ev in ws.connect(ping_rate=0):
+                        if take(ev):
+                            break
+                except Exception as e:  # noqa
+                    recs[-1]['escaped'] = type(e).__name__
+                finish()
+    finally:
+        S.socket = saved
+    return recs[:len(conns)]
+
+
+def run_reconnect_safe(case):
+    try:
+        return run_reconnect(case)
+    except Exception as e:  # noqa
+        return dict(__crash__='HARNESS-CRASH:%s:%s' % (type(e).__name__, str(e)[:200]), input=case)
+
+
+def rc_outcomes(spec):
+    """per-address outcome of one connection in the vocabulary of Model/Connect.lean"""
+    if spec['addrs'] is None:
+        return None
+    return ['sfail' if f in spec['nosock'] else o for f, o in spec['addrs']]
+
+
+def judge_reconnect(case, recs):
+    """oracle from the property text, per connection of the sequence; returns None or (cls, what, connection number)"""
+    if len(recs) != len(case['conns']):
+        return ('reconnect-missing', 'only %d of %d connections were made' % (len(recs), len(case['conns'])), len(recs))
+    for ci, (spec, r) in enumerate(zip(case['conns'], recs)):
+        outs = rc_outcomes(spec)
+        ev = r['events']
+        if r['escaped'] == 'HANG':
+            return ('hang', 'connection %d never ends' % ci, ci)
+        if r['escaped']:
+            return ('escape', 'connection %d: %s propagated out of the event iterator' % (ci, r['escaped']), ci)
+        if not ev or ev[-1] not in ('connect_fail', 'disconnected'):
+            return ('transport', 'connection %d: no terminal event: %s' % (ci, ev), ci)
+        tried = set(int(t[7:]) for t in r['log'] if t.startswith('connect') and t[7:] != '?') | \
+            set(int(t[6:]) for t in r['log'] if t.startswith('socket') and t[6:] != '?' and outs and outs[int(t[6:])] == 'sfail')
+        if ev[-1] == 'connect_fail':
+            if 'connected' in ev:
+                return ('transport', 'connection %d: ConnectFail after the connection was up' % ci, ci)
+            if outs is not None:
+                untried = [i for i in range(len(outs)) if i not in tried]
+                if untried:
+                    would = [i for i in untried if outs[i] == 'ok']
+                    return ('reconnect-address-not-tried', 'connection %d of the sequence gave up (ConnectFail) after trying only addresses %s of the %d resolved ones %s; never tried: %s%s'
+                            % (ci, sorted(tried), len(outs), spec['addrs'], untried, (' - address %d would have accepted' % would[0]) if would else ''), ci)
+                if 'ok' in outs:
+                    return ('reconnect-gave-up', 'connection %d: ConnectFail although address %d accepted the connect' % (ci, outs.index('ok')), ci)
+        else:
+            if 'connected' not in ev:
+                return ('transport', 'connection %d: Disconnected before the connection was up' % ci, ci)
+            if outs is None or 'ok' not in outs:
+                return ('transport', 'connection %d: Connected although no address accepts' % ci, ci)
+            if r['graceful']:
+                return ('graceful', 'connection %d: the peer dropped the stream, neither side had started the closing handshake, graceful=True' % ci, ci)
+        if r['open']:
+            return ('socket-open', 'connection %d: sockets of addresses %s still open after the terminal event' % (ci, r['open']), ci)
+        for i, t in enumerate(r['log']):
+            if t.startswith('connect') and not r['res'] == 'sock' + t[7:] and 'close' + t[7:] not in r['log'][i:]:
+                return ('socket-open', 'connection %d: the socket whose connect to address %s failed was not closed' % (ci, t[7:]), ci)
+    return None
+
+
+def explore_reconnect(res, rng, tier, model_ok):
+    cases = reconnect_systematic()
+    if tier == 'thorough':
+        res.exhaustive['reconnect_pairs_two_addresses_families_x_outcomes'] = len(cases)
+    else:
+        cases = rng.sample(cases, 40)
+    cases += [gen_reconnect_case(rng) for _ in range(3000 if tier == 'thorough' else 260)]
+    reals = runner.parallel_map('props.c09', 'run_reconnect_safe', cases, chunk=40)
+    lines, where, found = [], [], []
+    for case, recs in zip(cases, reals):
+        if isinstance(recs, dict):
+            res.crashes.append(recs); continue
+        res.case(('reconnect', json.dumps(case, sort_keys=True)), nontrivial=True)
+        res.count('reconnect:' + case['mode'])
+        res.count('reconnect:%d-connections' % len(case['conns']))
+        fams = [set(f for f, _ in c['addrs'] or []) for c in case['conns']]
+        if any(len(f) > 1 for f in fams):
+            res.count('reconnect:mixed-families')
+        firsts = [(lambda o: None if not o or 'ok' not in o else c['addrs'][o.index('ok')][0])(rc_outcomes(c)) for c in case['conns']]
+        if any(a and b and a != b for a, b in zip(firsts, firsts[1:])):
+            res.count('reconnect:serving-family-changes')
+        v = judge_reconnect(case, recs)
+        if v:
+            found.append(dict(cls=v[0], what=v[1] + ' [mode %s]' % case['mode'], input=dict(kind='reconnect', case=case),
+                                     observed=recs[min(v[2], len(recs) - 1)] if recs else None,
+                                     expected='C09: each resolved address is tried before giving up - on every connection made in the process, not only the first'))
+        res.traces_validated += 1
+        # every connection of the sequence against Model/Connect.lean (the model has no memory between connections)
+        for ci, (spec, r) in enumerate(zip(case['conns'], recs)):
+            outs = rc_outcomes(spec)
+            tokm = {'ok': 'ok', 'sfail': 'sfail', 'cfail': 'cfail'}
+            if outs is not None and len(outs) == 0:
+                continue
+            lines.append('connect ' + ('-' if outs is None else ','.join(tokm[o] for o in outs)))
+            where.append((case, ci, (r['res'] + ' ' + ','.join(r['log'])).strip()))
+    if model_ok and lines:
+        for line, (case, ci, real), out in zip(lines, where, runner.model_run(lines)):
+            if real != out.strip():
+                res.diffs.append(dict(input='%s (connection %d of %s)' % (line, ci, json.dumps(case, sort_keys=True)), real=real, model=out))
+    # the sequences of one worker process run one after the other in that process: a failure may depend on connections of EARLIER
+    # sequences.  The failing sequence that also fails on its own in a fresh interpreter (the replay) is reported first.
+    for k, f in enumerate(found[:8]):
+        if reconnect_standalone(f['input']['case']):
+            f['what'] += ' [reproduced on its own in a fresh process]'
+            found.insert(0, found.pop(k))
+            break
+    res.failures.extend(found)
+
+
+def reconnect_standalone(case):
+    """does the oracle also reject this sequence when it is the only thing a fresh interpreter runs?"""
+    import subprocess, sys, os
+    here = os.path.dirname(os.path.dirname(os.path.abspath(__file__)))
+    code = ('import sys, json; sys.path.insert(0, %r); import runner; import props.c09 as c; case = json.loads(sys.stdin.read()); '
+            'r = c.run_reconnect_safe(case); print("VERDICT", json.dumps(bool(isinstance(r, list) and c.judge_reconnect(case, r))))') % here
+    try:
+        p = subprocess.run([sys.executable, '-c', code], input=json.dumps(case), capture_output=True, text=True, timeout=60)
+    except Exception:  # noqa
+        return False
+    return 'VERDICT true' in p.stdout
+
+
 def explore(res, tier, seed, model_ok=True):
     rng = random.Random(seed)
     nbase = 6 if tier == 'quick' else 40
@@ -190,6 +501,7 @@ def explore(res, tier, seed, model_ok=True):
     res.rule = ('%d base scenarios x one fault injected at every individual socket operation: connect (2 kinds), each of the first 8 sendall calls, recv at every byte offset of the server stream (EOF / socket.error / other exception; streams over 2000 bytes: every offset of the first 600 and last 300 bytes plus 600 sampled), '
                 'selector.wait at every cycle; plus every outcome combination of up to 3 resolved addresses on the real _connect_sock; plus composed connections (harness/linkworld.py): '
                 'getaddrinfo / per-address outcomes x a random core history run through the real _connect/_connect_sock and the whole session loop, compared with the composed model `link`; '
+                'plus sequences of 2-4 connections in one process (same WebSocket object connect()ed again / lomond.persist / a new object per connection) whose getaddrinfo results mix AF_INET6 and AF_INET addresses and change per-address outcome between the connections (quick: 40 sampled of the 256 two-address pairs of connections + 260 random; thorough: all 256 + 3000), oracle per connection and each connection compared with Model/Connect.lean; '
                 'plus runs on a REAL transport (harness/realsock.py: TCP loopback and AF_UNIX pairs x every selector class of the platform x 8 endings: FIN / RST after the messages, inside a frame, before the reply is complete, silence then FIN, closing handshake); non-trivial = every faulted run; distinct by operation line') % nbase
     first_pairs = None
     # one batch per base scenario, so that memory stays bounded in the thorough tier
@@ -258,6 +570,10 @@ def explore(res, tier, seed, model_ok=True):
     linkworld.explore_stream(res, rng, 'proxy', 5000 if tier == 'thorough' else 400, model_ok, 'C09', judge_close=True)
     linkworld.explore_stream(res, rng, 'direct-wss', 1500 if tier == 'thorough' else 150, model_ok, 'C09', judge_close=True)
     res.samples += [first_pairs[0][1][-200:], first_pairs[1][1][-200:], 'connect outcomes (ok, connect-fail, sockcreate-fail)^n, n<=3']
+    # ---- sequences of connections in one process (connect() again on the same object, lomond.persist, a new object per connection):
+    # address lists of several families whose per-address outcomes change between the connections; oracle per connection + each
+    # connection's socket-module calls against Model/Connect.lean (drawn last: the streams above keep their random sequence)
+    explore_reconnect(res, rng, tier, model_ok)
 
 
 def replay(rp):
@@ -266,6 +582,15 @@ def replay(rp):
         it = tuple(rp['input']['realsock'])
         r = realsock.run_one(it)
         print(r); print(realsock.judge(it, r))
+        return 0
+    if isinstance(rp.get('input'), dict) and rp['input'].get('kind') == 'reconnect':
+        case = rp['input']['case']
+        recs = run_reconnect_safe(case)
+        print('case : ' + json.dumps(case))
+        print('class: %s - %s' % (rp.get('cls'), rp.get('what')))
+        for ci, r in enumerate(recs if isinstance(recs, list) else [recs]):
+            print('real connection %d: %s' % (ci, json.dumps(r, sort_keys=True)))
+        print('oracle now: %s' % (judge_reconnect(case, recs) if isinstance(recs, list) else None,))
         return 0
     if isinstance(rp.get('input'), dict) and rp['input'].get('kind') == 'link':
         import linkworld
